@@ -121,13 +121,18 @@ func doReplay(prog *Program, spec *PropSpec, rf *replayFile, dir string, skipNat
 	if sched {
 		return "interp=reproduced native=not-forced"
 	}
+	for _, n := range rf.Notes {
+		if strings.HasPrefix(n, "contract-stub:") {
+			return "interp=reproduced native=not-reproducible-at-this-size (" + n + ")"
+		}
+	}
 	return "ERROR native-replay-mismatch (see " + filepath.Join(dir, "native.log") + ")"
 }
 
 // nativeRun compiles the harness natively (overlay) and runs the entry with
 // the input vector. Returns the output and whether the violation reproduced.
 func nativeRun(prog *Program, spec *PropSpec, rf *replayFile, dir string, sched bool) (string, bool) {
-	ov, _, err := harnessOverlay(spec.Pkgs, true)
+	ov, _, err := harnessOverlay(spec.Pkgs, true, prog.skippedOpt == "")
 	if err != nil {
 		return err.Error(), false
 	}
